@@ -65,6 +65,10 @@ Proof.
   - destruct (registered u s) eqn:Q; auto. apply registered_in in Q. contradiction.
 Qed.
 
+Lemma finish_ok : forall n s i s', @Ok (uuid * st) (finish n s) = Ok (i, s') ->
+  i = node_id n /\ s' = snd (finish n s).
+Proof. intros n s i s' E. inversion E as [E']. unfold finish in *. inversion E'. split; reflexivity. Qed.
+
 (* ------------------------------------------------------------------ resolve_all *)
 
 Lemma resolve_all_snoc : forall c ns acc n,
@@ -204,8 +208,8 @@ Definition wf_ent (e : entity) : Prop :=
   | ETy (TTuple _ _ name els) =>
       valid_utf8 name = true /\ Forall (fun p => valid_utf8 (fst p) = true) els
   | ETy (TArray _ name _) | ETy (TRange _ name _) | ETy (TMultiRange _ name _) => valid_utf8 name = true
-  | ETy (TShape _ _ _ ptrs lps) =>
-      Forall (fun p => valid_utf8 (pname (fst p)) = true) (ptrs ++ lps)
+  | ETy (TShape mt _ _ ptrs lps) =>
+      Forall (fun e => valid_utf8 (e_name e) = true) (shape_elems H c mt ptrs lps)
   | _ => True
   end.
 Hypothesis Uwf : forall e, U e -> wf_ent e.
@@ -218,9 +222,25 @@ Proof.
   rewrite L. rewrite Hz; auto. intro Z. subst ds. unfold nth_desc in L. destruct (N.to_nat k); discriminate.
 Qed.
 
+Definition pfx (s s' : st) : Prop := exists more, pos s' = pos s ++ more.
+Lemma pfx_refl : forall s, pfx s s.
+Proof. intros s. exists []. rewrite app_nil_r. reflexivity. Qed.
+Lemma pfx_trans : forall a b d, pfx a b -> pfx b d -> pfx a d.
+Proof. intros a b d [m1 E1] [m2 E2]. exists (m1 ++ m2). rewrite E2, E1, app_assoc. reflexivity. Qed.
+Lemma pfx_incl : forall a b, pfx a b -> incl (pos a) (pos b).
+Proof. intros a b [m E]. rewrite E. apply incl_appl, incl_refl. Qed.
+Lemma index_of_app : forall u l more k, index_of u l = Some k -> index_of u (l ++ more) = Some k.
+Proof.
+  induction l as [|x l IH]; intros more k E; simpl in *; [discriminate|].
+  destruct (uuid_eqb u x); auto. destruct (index_of u l) eqn:Q; [|discriminate].
+  rewrite (IH more n eq_refl). exact E.
+Qed.
+Lemma pfx_index : forall a b u k, pfx a b -> index_of u (pos a) = Some k -> index_of u (pos b) = Some k.
+Proof. intros a b u k [m E] Q. rewrite E. apply index_of_app; auto. Qed.
+
 (* what describing an entity [e] from state [s] achieves *)
 Definition Post (e : entity) (s s' : st) : Prop :=
-  Inv s' /\ incl (pos s) (pos s') /\ In (eid' e) (pos s')
+  Inv s' /\ pfx s s' /\ In (eid' e) (pos s')
   /\ incl (pos s') (pos s ++ map eid' (ents_e e))
   /\ (~ In (eid' e) (pos s) -> exists ns n, nodes s' = ns ++ [n] /\ node_id n = eid' e)
   /\ anno s' = anno s.
@@ -228,7 +248,7 @@ Definition Post (e : entity) (s s' : st) : Prop :=
 Lemma post_early : forall e s, Inv s -> In (eid' e) (pos s) -> Post e s s.
 Proof.
   intros e s I Hi. unfold Post. splits; auto.
-  - apply incl_refl.
+  - apply pfx_refl.
   - apply incl_appl, incl_refl.
   - intro N. contradiction.
 Qed.
@@ -253,7 +273,7 @@ Qed.
 
 (* describing [e] = describing entities below it, then emitting one record *)
 Lemma post_finish : forall e s s1 ds n d,
-  Inv s1 -> ds_of s1 = Some ds -> incl (pos s) (pos s1) ->
+  Inv s1 -> ds_of s1 = Some ds -> pfx s s1 ->
   incl (pos s1) (pos s ++ map eid' (proper c e)) -> anno s1 = anno s ->
   U e -> eid' e = node_id n -> registered (node_id n) s1 = false -> wf_node c n ->
   resolve c ds n = Some d -> (forall z', (ds <> [] -> z' = hd0 ds) -> d = eexp' z' e) ->
@@ -263,7 +283,7 @@ Proof.
   assert (Hd' : d = eexp' (hd0 (ds ++ [d])) e) by (apply Hd; intro Z; apply hd0_app; auto).
   destruct (finish_step s1 ds n e d I E Ue Ee Rg W Rs Hd') as (I' & DS & P & Nn & A).
   unfold Post. rewrite P, Nn, A. splits; auto.
-  - apply incl_appl; auto.
+  - destruct In1 as [m Em]. exists (m ++ [node_id n]). unfold pfx. rewrite P, Em, app_assoc. reflexivity.
   - apply in_or_app. right. left. auto.
   - intros x Hx. apply in_app_or in Hx. destruct Hx as [Hx|[<-|[]]].
     + apply Bd in Hx. apply in_app_or in Hx. destruct Hx as [Hx|Hx]; apply in_or_app; auto.
@@ -274,13 +294,13 @@ Qed.
 
 (* the situation after some entities below [e] have been described *)
 Definition Mid (es : list entity) (s s1 : st) : Prop :=
-  Inv s1 /\ incl (pos s) (pos s1) /\ (forall x, In x es -> In (eid' x) (pos s1))
+  Inv s1 /\ pfx s s1 /\ (forall x, In x es -> In (eid' x) (pos s1))
   /\ incl (pos s1) (pos s ++ map eid' (flat_map ents_e es)) /\ anno s1 = anno s.
 
 Lemma mid_nil : forall s, Inv s -> Mid [] s s.
 Proof.
   intros s I. unfold Mid. splits; auto.
-  - apply incl_refl.
+  - apply pfx_refl.
   - intros x [].
   - simpl. rewrite app_nil_r. apply incl_refl.
 Qed.
@@ -288,8 +308,9 @@ Qed.
 Lemma mid_snoc : forall es e s s1 s2, Mid es s s1 -> Post e s1 s2 -> Mid (es ++ [e]) s s2.
 Proof.
   intros es e s s1 s2 (I1 & In1 & R1 & B1 & A1) (I2 & In2 & R2 & B2 & _ & A2). unfold Mid. splits; auto.
-  - eapply incl_tran; eauto.
+  - eapply pfx_trans; eauto.
   - intros x Hx. apply in_app_or in Hx. destruct Hx as [Hx|[<-|[]]]; auto.
+    apply (pfx_incl _ _ In2). auto.
   - intros x Hx. apply B2 in Hx. rewrite flat_map_app, map_app. simpl. rewrite app_nil_r.
     apply in_app_or in Hx. destruct Hx as [Hx|Hx].
     + apply B1 in Hx. apply in_app_or in Hx. destruct Hx; apply in_or_app; auto.
@@ -387,7 +408,7 @@ Proof.
     eapply post_finish with (s1 := s) (ds := ds) (n := NObject (oid o) (oname o) true).
     + exact I.
     + exact D.
-    + apply incl_refl.
+    + apply pfx_refl.
     + apply incl_appl, incl_refl.
     + reflexivity.
     + exact Ue.
@@ -473,9 +494,10 @@ Proof. induction l; simpl; auto. destruct (stop a); simpl; congruence. Qed.
 Lemma mapM_until_take : forall {A B} (stop : A -> bool) (f : A -> st -> res (B * st)) l s,
   mapM_until stop f l s = mapM f (take_until stop l) s.
 Proof.
+  intros A B stop f. unfold mapM_until, mapM.
   induction l as [|a l IH]; intros s; simpl; auto.
-  destruct (f a s) as [[b s1]|e]; simpl; auto.
-  destruct (stop a); simpl; auto. rewrite IH. reflexivity.
+  destruct (stop a); simpl; destruct (f a s) as [[b s1]|e]; simpl; auto.
+  rewrite IH. reflexivity.
 Qed.
 
 Lemma take_until_incl : forall {A} (stop : A -> bool) l, incl (take_until stop l) l.
@@ -518,7 +540,7 @@ Lemma scalar_post : forall sc s i s', U (EScalar sc) -> Inv s ->
   desc_scalar c sc s = Ok (i, s') -> i = sid sc /\ Post (EScalar sc) s s'.
 Proof.
   intros sc. induction sc using scalar_ind'. rename H0 into IHanc.
-  intros s i0 s' Ue I E. cbn [desc_scalar] in E.
+  intros s i0 s' Ue I E. cbn [desc_scalar] in E. pose proof noanno_v1 as NA.
   set (sc := Scalar i n a anc en) in *.
   destruct (registered i s) eqn:Rg.
   { inversion E; subst. split; auto. apply post_early; auto. apply registered_in; auto. }
@@ -537,7 +559,7 @@ Proof.
     eapply post_finish with (s1 := s) (ds := ds0).
     - exact I.
     - exact D0.
-    - apply incl_refl.
+    - apply pfx_refl.
     - apply incl_appl, incl_refl.
     - reflexivity.
     - exact Ue.
@@ -545,13 +567,14 @@ Proof.
     - exact Rg.
     - split; [exact Wi|]. cbn. split; auto.
     - cbn [resolve]. unfold hdr_of. rewrite Qv. reflexivity.
-    - intros z' _. cbn [eexp exp_scalar]. fold sc. rewrite T. reflexivity. }
+    - intros z' _. cbn [eexp]. unfold sc. cbn [exp_scalar]. fold sc. rewrite T. reflexivity. }
   destruct (v2 c) eqn:V.
   - (* protocol >= 2 *)
-    bind_inv E. destruct a0 as [aids s1]. bind_inv E.
-    assert (EE : i0 = i /\ s' = snd (finish (if is_nil en then NScalar i (mkHd n true a0) 0
-                                              else NEnum i (mkHd n true a0) en) s1)) by (inversion E; auto).
-    destruct EE as [-> ->]. clear E. split; auto.
+    cbv iota in E. bind_inv E. destruct a0 as [aids s1]. bind_inv E.
+    apply finish_ok in E. destruct E as [-> ->].
+    replace (node_id (if is_nil en then NScalar i (mkHd n true a0) 0 else NEnum i (mkHd n true a0) en)) with i
+      by (destruct (is_nil en); reflexivity).
+    split; auto.
     set (described := if uuid_eqb i (sid top) then [] else take_until (fun x => uuid_eqb (sid x) (sid top)) anc).
     assert (M : Mid (map EScalar described) s s1 /\ aids = map sid described).
     { unfold described. destruct (uuid_eqb i (sid top)).
@@ -568,7 +591,7 @@ Proof.
     { unfold described. destruct (uuid_eqb i (sid top)); [intros x []|apply take_until_incl]. }
     assert (Sub : incl (flat_map ents_e (map EScalar described)) (proper c (EScalar sc))).
     { rewrite flat_map_map. intros x Hx. apply in_flat_map in Hx. destruct Hx as (y & Hy & Hx).
-      eapply ents_scalar_anc; eauto. simpl. apply DI; auto. }
+      eapply ents_scalar_anc; eauto. }
     destruct (inv_ds_ex _ (mid_inv _ _ _ M)) as [ds D].
     assert (RL : forall z', (ds <> [] -> z' = hd0 ds) -> nth_descs ds a0 = Some (map (exp_scalar c) described)).
     { intros z' Hz. rewrite <- (map_map EScalar (eexp' z')).
@@ -581,30 +604,40 @@ Proof.
                    else DEnum i (Some (n, true, map (exp_scalar c) described)) en).
     { intros z'. cbn [eexp]. unfold sc. cbn [exp_scalar]. fold sc. rewrite T, V. unfold described.
       destruct (uuid_eqb i (sid top)); [reflexivity|]. rewrite map_until_take. reflexivity. }
-    eapply post_finish with (s1 := s1) (ds := ds).
-    + apply (mid_inv _ _ _ M).
-    + exact D.
-    + apply M.
-    + eapply mid_bound; eauto.
-    + apply M.
-    + exact Ue.
-    + destruct (is_nil en); reflexivity.
-    + replace (node_id (if is_nil en then NScalar i (mkHd n true a0) 0 else NEnum i (mkHd n true a0) en)) with i
-        by (destruct (is_nil en); reflexivity).
-      eapply (mid_not_registered (EScalar sc)); eauto.
-    + destruct (is_nil en); (split; [exact Wi|]); cbn; auto.
-    + destruct (is_nil en); cbn [resolve]; unfold hdr_of; rewrite V; cbn [h_anc h_name h_sd];
-        rewrite (RL (hd0 ds)) by auto; reflexivity.
-    + intros z' Hz. rewrite EXP. destruct (is_nil en); reflexivity.
+    destruct (is_nil en) eqn:Qn.
+    + eapply post_finish with (s1 := s1) (ds := ds).
+      * apply (mid_inv _ _ _ M).
+      * exact D.
+      * apply M.
+      * eapply mid_bound; eauto.
+      * apply M.
+      * exact Ue.
+      * reflexivity.
+      * eapply (mid_not_registered (EScalar sc)); eauto.
+      * split; [exact Wi|]; cbn; auto.
+      * cbn [resolve]. rewrite V. cbn [h_anc h_name h_sd]. rewrite (RL (hd0 ds)) by auto. reflexivity.
+      * intros z' Hz. rewrite EXP. reflexivity.
+    + eapply post_finish with (s1 := s1) (ds := ds).
+      * apply (mid_inv _ _ _ M).
+      * exact D.
+      * apply M.
+      * eapply mid_bound; eauto.
+      * apply M.
+      * exact Ue.
+      * reflexivity.
+      * eapply (mid_not_registered (EScalar sc)); eauto.
+      * split; [exact Wi|]; cbn; auto.
+      * cbn [resolve]. unfold hdr_of. rewrite V. cbn [h_anc h_name h_sd]. rewrite (RL (hd0 ds)) by auto. reflexivity.
+      * intros z' Hz. rewrite EXP. reflexivity.
   - (* protocol < 2 *)
-    rewrite (noanno_v1 V) in E.
+    cbv iota in E. rewrite (NA eq_refl) in E.
     destruct (negb (is_nil en)) eqn:Qe.
     { assert (EE : i0 = i /\ s' = snd (finish (NEnum i (mkHd n true []) en) s)) by (inversion E; auto).
       destruct EE as [-> ->]. split; auto.
       eapply post_finish with (s1 := s) (ds := ds0).
       - exact I.
       - exact D0.
-      - apply incl_refl.
+      - apply pfx_refl.
       - apply incl_appl, incl_refl.
       - reflexivity.
       - exact Ue.
@@ -619,7 +652,7 @@ Proof.
       eapply post_finish with (s1 := s) (ds := ds0).
       - exact I.
       - exact D0.
-      - apply incl_refl.
+      - apply pfx_refl.
       - apply incl_appl, incl_refl.
       - reflexivity.
       - exact Ue.
@@ -638,7 +671,7 @@ Proof.
     destruct (IHanc b Hb s bid s1 (IHU b Hb) I E0) as [-> Pb].
     pose proof (mid_snoc _ _ _ _ _ (mid_nil _ I) Pb) as M. simpl in M.
     assert (Sub : incl (flat_map ents_e [EScalar b]) (proper c (EScalar sc))).
-    { simpl. rewrite app_nil_r. apply ents_scalar_anc. exact Hb. }
+    { cbn [flat_map ents_e]. rewrite app_nil_r. apply (ents_scalar_anc sc b). exact Hb. }
     destruct (inv_ds_ex _ (mid_inv _ _ _ M)) as [ds D].
     eapply post_finish with (s1 := s1) (ds := ds).
     + apply (mid_inv _ _ _ M).
@@ -655,6 +688,680 @@ Proof.
       reflexivity.
     + intros z' Hz. cbn [eexp]. unfold sc. cbn [exp_scalar]. fold sc. rewrite T, V, Qe, Qf.
       rewrite exp_topmost_pick, TP. reflexivity.
+Qed.
+
+(* ------------------------------------------------------------------ types *)
+
+Lemma post_mid_registered : forall e es s s1,
+  Mid es s s1 -> incl (flat_map ents_e es) (proper c e) -> U e ->
+  registered (eid' e) s1 = true -> Post e s s1.
+Proof.
+  intros e es s s1 M Sub Ue Rg. pose proof (mid_bound e es s s1 M Sub) as Bd.
+  destruct M as (I1 & P1 & R1 & B1 & A1). unfold Post. splits; auto.
+  - apply registered_in; auto.
+  - intros x Hx. apply Bd in Hx. apply in_app_or in Hx. destruct Hx as [Hx|Hx]; apply in_or_app; auto.
+    right. apply in_map_iff in Hx. destruct Hx as (y & <- & Hy). apply in_map. apply proper_incl; auto.
+  - intros Nn. exfalso. apply registered_in in Rg. apply Bd in Rg. apply in_app_or in Rg.
+    destruct Rg as [Rg|Rg]; [contradiction|]. apply (Acyclic e Ue); auto.
+Qed.
+
+Lemma post_weaken : forall e e' s s', eid' e = eid' e' -> incl (ents_e e) (ents_e e') ->
+  Post e s s' -> Post e' s s'.
+Proof.
+  intros e e' s s' Ee Sub (I & P & Hi & B & L & A). unfold Post. rewrite <- Ee. splits; auto.
+  intros x Hx. apply B in Hx. apply in_app_or in Hx. destruct Hx as [Hx|Hx]; apply in_or_app; auto.
+  right. apply in_map_iff in Hx. destruct Hx as (y & <- & Hy). apply in_map. auto.
+Qed.
+
+Lemma mapM_gen : forall {A B} (f : A -> st -> res (B * st)) (entl : A -> list entity) (r : A -> B) l,
+  Forall (fun a => forall es s0 s b s', Mid es s0 s -> f a s = Ok (b, s') ->
+                                        Mid (es ++ entl a) s0 s' /\ b = r a) l ->
+  forall es s0 s bs s', Mid es s0 s -> mapM f l s = Ok (bs, s') ->
+    Mid (es ++ flat_map entl l) s0 s' /\ bs = map r l.
+Proof.
+  intros A B f entl r l HF. induction HF as [|a l Ha HF IH]; intros es s0 s bs s' M E; simpl in E.
+  - inversion E; subst. simpl. rewrite app_nil_r. auto.
+  - bind_inv E. destruct a0 as [b s1]. bind_inv E. destruct a0 as [bs' s2]. inversion E; subst.
+    destruct (Ha _ _ _ _ _ M E0) as [M1 ->].
+    destruct (IH _ _ _ _ _ M1 E1) as [M2 ->].
+    split; [|reflexivity]. simpl. rewrite app_assoc. exact M2.
+Qed.
+
+Definition PT (t : ty) : Prop :=
+  forall s i s', U (ETy t) -> Inv s -> desc_ty H c t s = Ok (i, s') -> i = tid' t /\ Post (ETy t) s s'.
+
+Lemma ents_head : forall t, In (ETy t) (ents c t).
+Proof. intros t. destruct t; simpl; auto. Qed.
+
+Lemma ty_mid : forall t, PT t -> U (ETy t) -> forall es s0 s i s',
+  Mid es s0 s -> desc_ty H c t s = Ok (i, s') -> Mid (es ++ [ETy t]) s0 s' /\ i = tid' t.
+Proof.
+  intros t IH Ut es s0 s i s' M E. destruct (IH _ _ _ Ut (mid_inv _ _ _ M) E) as [-> P].
+  split; auto. eapply mid_snoc; eauto.
+Qed.
+
+Lemma set_mid : forall t, PT t -> U (ETy t) -> U (ESet t) -> forall es s0 s i s',
+  Mid es s0 s -> desc_set H c (desc_ty H c) t s = Ok (i, s') ->
+  Mid (es ++ [ETy t; ESet t]) s0 s' /\ i = set_id H (tid' t).
+Proof.
+  intros t IH Ut Us es s0 s i s' M E. unfold desc_set in E.
+  bind_inv E. destruct a as [ti s1]. destruct (ty_mid t IH Ut _ _ _ _ _ M E0) as [M1 ->].
+  change (es ++ [ETy t; ESet t]) with (es ++ [ETy t] ++ [ESet t]). rewrite app_assoc.
+  destruct (registered (set_id H (tid' t)) s1) eqn:Rg.
+  - inversion E; subst. split; auto. eapply mid_snoc; eauto. apply post_early.
+    + apply (mid_inv _ _ _ M1).
+    + apply registered_in; auto.
+  - bind_inv E. apply finish_ok in E. destruct E as [-> ->]. cbn [node_id]. split; auto.
+    eapply mid_snoc; eauto.
+    destruct (inv_ds_ex _ (mid_inv _ _ _ M1)) as [ds D].
+    destruct (Uwf _ Us) as [Wi _]. cbn [eid] in Wi.
+    eapply post_finish with (s1 := s1) (ds := ds) (e := ESet t).
+    + apply (mid_inv _ _ _ M1).
+    + exact D.
+    + apply pfx_refl.
+    + apply incl_appl, incl_refl.
+    + reflexivity.
+    + exact Us.
+    + reflexivity.
+    + exact Rg.
+    + split; [exact Wi|exact I].
+    + cbn [resolve].
+      rewrite (ref_lookup s1 ds (ETy t) a (hd0 ds) (mid_inv _ _ _ M1) D Ut E1) by auto. reflexivity.
+    + intros z' Hz. cbn [eexp resolve].
+      pose proof (ref_lookup s1 ds (ETy t) a z' (mid_inv _ _ _ M1) D Ut E1 Hz) as L1.
+      pose proof (ref_lookup s1 ds (ETy t) a (hd0 ds) (mid_inv _ _ _ M1) D Ut E1 ltac:(auto)) as L2.
+      rewrite L1 in L2. inversion L2. reflexivity.
+Qed.
+
+Lemma combine_map_fst : forall {A B} (l : list A) (k : list B), length k = length l ->
+  map fst (combine l k) = l /\ map snd (combine l k) = k.
+Proof.
+  induction l as [|a l IH]; intros [|b k] L; simpl in *; try discriminate; auto.
+  destruct (IH k) as [E1 E2]; auto. rewrite E1, E2. auto.
+Qed.
+
+Lemma combine_expect : forall {A} (g : ty -> desc) (els : list (A * ty)),
+  combine (map fst els) (map (fun p => g (snd p)) els) = map (fun p => (fst p, g (snd p))) els.
+Proof. induction els; simpl; congruence. Qed.
+
+Lemma hdr_of_plain : forall ds name pers, hdr_of c ds (mkHd name pers []) = Some (hdr_exp c name pers).
+Proof. intros. unfold hdr_of, hdr_exp. destruct (v2 c); reflexivity. Qed.
+
+Lemma Forall_combine_fst : forall {A B} (P : A -> Prop) (l : list A) (k : list B),
+  Forall P l -> Forall (fun q => P (fst q)) (combine l k).
+Proof.
+  induction l as [|a l IH]; intros k HF; simpl; auto. destruct k; auto. inversion HF; subst.
+  constructor; auto.
+Qed.
+
+Lemma tuple_post : forall named pers name els,
+  Forall (fun p => PT (snd p)) els -> PT (TTuple named pers name els).
+Proof.
+  intros named pers name els IH s i0 s' Ue I E. cbn [desc_ty] in E.
+  set (t := TTuple named pers name els) in *.
+  bind_inv E. destruct a as [subs s1].
+  assert (HU : Forall (fun p => U (ETy (snd p))) els).
+  { apply Forall_forall. intros p Hp. apply (Uclosed _ _ Ue). cbn [ents_e]. unfold t. cbn [ents]. right.
+    apply in_flat_map. exists p. split; auto. apply ents_head. }
+  assert (HF : Forall (fun p => forall s i s', U (ETy (snd p)) -> Inv s -> desc_ty H c (snd p) s = Ok (i, s') ->
+                                      i = eid' (ETy (snd p)) /\ Post (ETy (snd p)) s s') els).
+  { eapply Forall_impl; [|exact IH]. intros p Hp s2 i2 s3 U2 I2 E2. apply Hp; auto. }
+  destruct (mapM_mid (fun p => desc_ty H c (snd p)) (fun p => ETy (snd p)) els HF HU [] s s subs s1
+                     (mid_nil _ I) E0) as [M ->].
+  cbn [app eid] in M, E.
+  assert (Sub : incl (flat_map ents_e (map (fun p => ETy (snd p)) els)) (proper c (ETy t))).
+  { rewrite flat_map_map. unfold t. cbn [proper ents tl ents_e]. apply incl_refl. }
+  assert (Eid : tuple_id H (map (fun p => tid' (snd p)) els) (if named then Some (map fst els) else None) = tid' t)
+    by reflexivity.
+  rewrite Eid in E.
+  destruct (registered (tid' t) s1) eqn:Rg.
+  { inversion E; subst. split; auto. eapply post_mid_registered; eauto. }
+  bind_inv E. apply finish_ok in E. destruct E as [-> ->].
+  replace (node_id (if named then NNamedTuple (tid' t) (mkHd name pers []) (combine (map fst els) a)
+                    else NTuple (tid' t) (mkHd name pers []) a)) with (tid' t) by (destruct named; reflexivity).
+  split; auto.
+  destruct (inv_ds_ex _ (mid_inv _ _ _ M)) as [ds D].
+  destruct (Uwf _ Ue) as [Wi [Wn Wels]]. cbn [eid] in Wi.
+  assert (La : length a = length els) by (apply refs_length in E1; rewrite map_length in E1; auto).
+  assert (RL : forall z', (ds <> [] -> z' = hd0 ds) ->
+                          nth_descs ds a = Some (map (fun p => expect H c z' (snd p)) els)).
+  { intros z' Hz.
+    replace (map (fun p => expect H c z' (snd p)) els)
+      with (map (eexp' z') (map (fun p : str * ty => ETy (snd p)) els)) by (rewrite map_map; reflexivity).
+    apply (refs_lookup s1 ds (map (fun p => ETy (snd p)) els) a z' (mid_inv _ _ _ M) D); auto.
+    - apply Forall_map. exact HU.
+    - rewrite map_map. exact E1. }
+  destruct named.
+  - destruct (combine_map_fst (map fst els) a) as [CF CS]; [rewrite map_length; auto|].
+    eapply post_finish with (s1 := s1) (ds := ds).
+    + apply (mid_inv _ _ _ M).
+    + exact D.
+    + apply M.
+    + eapply mid_bound; eauto.
+    + apply M.
+    + exact Ue.
+    + reflexivity.
+    + exact Rg.
+    + change (wf_id (tid' t) /\ (wf_hd (mkHd name pers []) /\
+              Forall (fun p : str * N => valid_utf8 (fst p) = true) (combine (map fst els) a))).
+      split; [exact Wi|]. split; [exact Wn|].
+      apply (Forall_combine_fst (fun x : str => valid_utf8 x = true)). apply Forall_map. exact Wels.
+    + cbn [resolve]. rewrite hdr_of_plain, CS, CF, (RL (hd0 ds)) by auto. reflexivity.
+    + intros z' Hz. cbn [eexp]. unfold t. cbn [expect]. fold t.
+      pose proof (RL z' Hz) as R1. pose proof (RL (hd0 ds) ltac:(auto)) as R2. rewrite R1 in R2.
+      inversion R2 as [R3]. try rewrite <- R3. rewrite combine_expect. reflexivity.
+  - eapply post_finish with (s1 := s1) (ds := ds).
+    + apply (mid_inv _ _ _ M).
+    + exact D.
+    + apply M.
+    + eapply mid_bound; eauto.
+    + apply M.
+    + exact Ue.
+    + reflexivity.
+    + exact Rg.
+    + split; [exact Wi|exact Wn].
+    + cbn [resolve]. rewrite hdr_of_plain, (RL (hd0 ds)) by auto. reflexivity.
+    + intros z' Hz. cbn [eexp]. unfold t. cbn [expect]. fold t.
+      pose proof (RL z' Hz) as R1. pose proof (RL (hd0 ds) ltac:(auto)) as R2. rewrite R1 in R2.
+      inversion R2 as [R3]. try rewrite <- R3. reflexivity.
+Qed.
+
+Lemma array_post : forall pers name el, PT el -> PT (TArray pers name el).
+Proof.
+  intros pers name el IH s i0 s' Ue I E. cbn [desc_ty] in E.
+  set (t := TArray pers name el) in *.
+  bind_inv E. destruct a as [sub s1].
+  assert (Uel : U (ETy el)).
+  { apply (Uclosed _ _ Ue). cbn [ents_e]. unfold t. cbn [ents]. right. apply ents_head. }
+  destruct (ty_mid el IH Uel _ _ _ _ _ (mid_nil _ I) E0) as [M ->]. cbn [app] in M.
+  assert (Sub : incl (flat_map ents_e [ETy el]) (proper c (ETy t))).
+  { cbn [flat_map ents_e]. rewrite app_nil_r. unfold t. cbn [proper ents tl]. apply incl_refl. }
+  assert (Eid : coll1_id H s_array (tid' el) = tid' t) by reflexivity.
+  rewrite Eid in E.
+  destruct (registered (tid' t) s1) eqn:Rg.
+  { inversion E; subst. split; auto. eapply post_mid_registered; eauto. }
+  bind_inv E. apply finish_ok in E. destruct E as [-> ->]. cbn [node_id]. split; auto.
+  destruct (inv_ds_ex _ (mid_inv _ _ _ M)) as [ds D].
+  destruct (Uwf _ Ue) as [Wi Wn]. cbn [eid] in Wi.
+  eapply post_finish with (s1 := s1) (ds := ds).
+  + apply (mid_inv _ _ _ M).
+  + exact D.
+  + apply M.
+  + eapply mid_bound; eauto.
+  + apply M.
+  + exact Ue.
+  + reflexivity.
+  + exact Rg.
+  + split; [exact Wi|exact Wn].
+  + cbn [resolve]. rewrite hdr_of_plain.
+    rewrite (ref_lookup s1 ds (ETy el) a (hd0 ds) (mid_inv _ _ _ M) D Uel E1) by auto. reflexivity.
+  + intros z' Hz. cbn [eexp]. unfold t. cbn [expect]. fold t.
+    pose proof (ref_lookup s1 ds (ETy el) a z' (mid_inv _ _ _ M) D Uel E1 Hz) as L1.
+    pose proof (ref_lookup s1 ds (ETy el) a (hd0 ds) (mid_inv _ _ _ M) D Uel E1 ltac:(auto)) as L2.
+    rewrite L1 in L2. inversion L2. reflexivity.
+Qed.
+
+Lemma range_post : forall pers name el, PT el -> PT (TRange pers name el).
+Proof.
+  intros pers name el IH s i0 s' Ue I E. cbn [desc_ty] in E.
+  set (t := TRange pers name el) in *.
+  bind_inv E. destruct a as [sub s1].
+  assert (Uel : U (ETy el)).
+  { apply (Uclosed _ _ Ue). cbn [ents_e]. unfold t. cbn [ents]. right. apply ents_head. }
+  destruct (ty_mid el IH Uel _ _ _ _ _ (mid_nil _ I) E0) as [M ->]. cbn [app] in M.
+  assert (Sub : incl (flat_map ents_e [ETy el]) (proper c (ETy t))).
+  { cbn [flat_map ents_e]. rewrite app_nil_r. unfold t. cbn [proper ents tl]. apply incl_refl. }
+  assert (Eid : coll1_id H s_range (tid' el) = tid' t) by reflexivity.
+  rewrite Eid in E.
+  destruct (registered (tid' t) s1) eqn:Rg.
+  { inversion E; subst. split; auto. eapply post_mid_registered; eauto. }
+  bind_inv E. apply finish_ok in E. destruct E as [-> ->]. cbn [node_id]. split; auto.
+  destruct (inv_ds_ex _ (mid_inv _ _ _ M)) as [ds D].
+  destruct (Uwf _ Ue) as [Wi Wn]. cbn [eid] in Wi.
+  eapply post_finish with (s1 := s1) (ds := ds).
+  + apply (mid_inv _ _ _ M).
+  + exact D.
+  + apply M.
+  + eapply mid_bound; eauto.
+  + apply M.
+  + exact Ue.
+  + reflexivity.
+  + exact Rg.
+  + split; [exact Wi|exact Wn].
+  + cbn [resolve]. rewrite hdr_of_plain.
+    rewrite (ref_lookup s1 ds (ETy el) a (hd0 ds) (mid_inv _ _ _ M) D Uel E1) by auto. reflexivity.
+  + intros z' Hz. cbn [eexp]. unfold t. cbn [expect]. fold t.
+    pose proof (ref_lookup s1 ds (ETy el) a z' (mid_inv _ _ _ M) D Uel E1 Hz) as L1.
+    pose proof (ref_lookup s1 ds (ETy el) a (hd0 ds) (mid_inv _ _ _ M) D Uel E1 ltac:(auto)) as L2.
+    rewrite L1 in L2. inversion L2. reflexivity.
+Qed.
+
+Lemma multirange_post : forall pers name el, PT el -> PT (TMultiRange pers name el).
+Proof.
+  intros pers name el IH s i0 s' Ue I E. cbn [desc_ty] in E.
+  set (t := TMultiRange pers name el) in *.
+  bind_inv E. destruct a as [sub s1].
+  assert (Uel : U (ETy el)).
+  { apply (Uclosed _ _ Ue). cbn [ents_e]. unfold t. cbn [ents]. right. apply ents_head. }
+  destruct (ty_mid el IH Uel _ _ _ _ _ (mid_nil _ I) E0) as [M ->]. cbn [app] in M.
+  assert (Sub : incl (flat_map ents_e [ETy el]) (proper c (ETy t))).
+  { cbn [flat_map ents_e]. rewrite app_nil_r. unfold t. cbn [proper ents tl]. apply incl_refl. }
+  assert (Eid : coll1_id H s_multirange (tid' el) = tid' t) by reflexivity.
+  rewrite Eid in E.
+  destruct (registered (tid' t) s1) eqn:Rg.
+  { inversion E; subst. split; auto. eapply post_mid_registered; eauto. }
+  bind_inv E. apply finish_ok in E. destruct E as [-> ->]. cbn [node_id]. split; auto.
+  destruct (inv_ds_ex _ (mid_inv _ _ _ M)) as [ds D].
+  destruct (Uwf _ Ue) as [Wi Wn]. cbn [eid] in Wi.
+  eapply post_finish with (s1 := s1) (ds := ds).
+  + apply (mid_inv _ _ _ M).
+  + exact D.
+  + apply M.
+  + eapply mid_bound; eauto.
+  + apply M.
+  + exact Ue.
+  + reflexivity.
+  + exact Rg.
+  + split; [exact Wi|exact Wn].
+  + cbn [resolve]. rewrite hdr_of_plain.
+    rewrite (ref_lookup s1 ds (ETy el) a (hd0 ds) (mid_inv _ _ _ M) D Uel E1) by auto. reflexivity.
+  + intros z' Hz. cbn [eexp]. unfold t. cbn [expect]. fold t.
+    pose proof (ref_lookup s1 ds (ETy el) a z' (mid_inv _ _ _ M) D Uel E1 Hz) as L1.
+    pose proof (ref_lookup s1 ds (ETy el) a (hd0 ds) (mid_inv _ _ _ M) D Uel E1 ltac:(auto)) as L2.
+    rewrite L1 in L2. inversion L2. reflexivity.
+Qed.
+
+(* ------------------------------------------------------------------ shapes *)
+
+Definition entl_ptr (p : pinfo * ty) : list entity :=
+  if negb (is_prefix (flt c) (pname (fst p))) then []
+  else if negb (pmulti (fst p)) then
+         (if plink (fst p) && negb (follow c) then [EScalar (uuid_sc c)] else [ETy (snd p)])
+       else [ETy (snd p); ESet (snd p)].
+
+Definition entl_lp (p : pinfo * ty) : list entity :=
+  if pmulti (fst p) then [ETy (snd p); ESet (snd p)] else [ETy (snd p)].
+
+Lemma ptr_mid : forall p, PT (snd p) -> U (ETy (snd p)) -> U (ESet (snd p)) -> U (EScalar (uuid_sc c)) ->
+  forall es s0 s oe s', Mid es s0 s -> desc_ptr H c (desc_ty H c) p s = Ok (oe, s') ->
+  Mid (es ++ entl_ptr p) s0 s' /\ oe = ptr_elem H c tid' p.
+Proof.
+  intros p IH Ut Us Uu es s0 s oe s' M E. unfold desc_ptr in E. unfold entl_ptr, ptr_elem.
+  destruct (negb (is_prefix (flt c) (pname (fst p)))).
+  { inversion E; subst. rewrite app_nil_r. auto. }
+  bind_inv E. destruct a as [sub s1]. inversion E; subst oe s'. clear E.
+  destruct (pmulti (fst p)); cbn [negb] in *.
+  - destruct (plink (fst p) && negb (follow c)); [discriminate|].
+    destruct (set_mid _ IH Ut Us _ _ _ _ _ M E0) as [M1 ->]. auto.
+  - destruct (plink (fst p) && negb (follow c)).
+    + destruct (scalar_post _ _ _ _ Uu (mid_inv _ _ _ M) E0) as [-> P]. split; auto.
+      eapply mid_snoc; eauto.
+    + destruct (ty_mid _ IH Ut _ _ _ _ _ M E0) as [M1 ->]. auto.
+Qed.
+
+Lemma lprop_mid : forall mt p, PT (snd p) -> U (ETy (snd p)) -> U (ESet (snd p)) ->
+  forall es s0 s e s', Mid es s0 s -> desc_lprop H c (desc_ty H c) mt p s = Ok (e, s') ->
+  Mid (es ++ entl_lp p) s0 s' /\ e = lprop_elem H tid' mt p.
+Proof.
+  intros mt p IH Ut Us es s0 s e s' M E. unfold desc_lprop in E. unfold entl_lp, lprop_elem.
+  bind_inv E. destruct a as [sub s1]. inversion E; subst e s'. clear E.
+  destruct (pmulti (fst p)); cbn [negb] in *.
+  - destruct (set_mid _ IH Ut Us _ _ _ _ _ M E0) as [M1 ->]. auto.
+  - destruct (ty_mid _ IH Ut _ _ _ _ _ M E0) as [M1 ->]. auto.
+Qed.
+
+(* the entity whose descriptor an element refers to *)
+Definition sub_ent_ptr (p : pinfo * ty) : entity :=
+  if pmulti (fst p) then ESet (snd p)
+  else if plink (fst p) && negb (follow c) then EScalar (uuid_sc c) else ETy (snd p).
+Definition sub_ent_lp (p : pinfo * ty) : entity :=
+  if pmulti (fst p) then ESet (snd p) else ETy (snd p).
+
+(* element records paired with the entity they refer to *)
+Fixpoint ptr_pairs (ptrs : list (pinfo * ty)) : list (elem * entity) :=
+  match ptrs with
+  | [] => []
+  | p :: r => match ptr_elem H c tid' p with
+              | Some e => (e, sub_ent_ptr p) :: ptr_pairs r
+              | None => ptr_pairs r
+              end
+  end.
+Definition lp_pairs (mt : objtype) (lps : list (pinfo * ty)) : list (elem * entity) :=
+  map (fun p => (lprop_elem H tid' mt p, sub_ent_lp p)) lps.
+
+Lemma ptr_pairs_fst : forall ptrs, map fst (ptr_pairs ptrs) = somes (map (ptr_elem H c tid') ptrs).
+Proof. induction ptrs as [|p r IH]; simpl; auto. destruct (ptr_elem H c tid' p); simpl; congruence. Qed.
+
+Lemma lp_pairs_fst : forall mt lps, map fst (lp_pairs mt lps) = map (lprop_elem H tid' mt) lps.
+Proof. intros. unfold lp_pairs. rewrite map_map. reflexivity. Qed.
+
+Definition ptr_sane (p : pinfo * ty) : Prop :=
+  negb (is_prefix (flt c) (pname (fst p))) = true
+  \/ pmulti (fst p) && (plink (fst p) && negb (follow c)) = false.
+
+Lemma desc_ptr_sane : forall p s r, desc_ptr H c (desc_ty H c) p s = Ok r -> ptr_sane p.
+Proof.
+  intros p s r E. unfold desc_ptr in E. unfold ptr_sane.
+  destruct (negb (is_prefix (flt c) (pname (fst p)))); auto. right.
+  destruct (pmulti (fst p)); auto. cbn [negb andb] in *.
+  destruct (plink (fst p) && negb (follow c)); auto. simpl in E. discriminate.
+Qed.
+
+Lemma mapM_all_ok : forall {A B} (f : A -> st -> res (B * st)) (P : A -> Prop) l s r,
+  (forall a s r, f a s = Ok r -> P a) -> mapM f l s = Ok r -> Forall P l.
+Proof.
+  intros A B f P l. induction l as [|a l IH]; intros s r HP E; simpl in E; auto.
+  bind_inv E. destruct a0 as [b s1]. bind_inv E. destruct a0 as [bs s2]. constructor; eauto.
+Qed.
+
+Lemma ptr_pairs_ok : forall ptrs es, Forall ptr_sane ptrs -> (forall p, In p ptrs -> incl (entl_ptr p) es) ->
+  Forall (fun x => eid' (snd x) = e_sub (fst x) /\ In (snd x) es) (ptr_pairs ptrs).
+Proof.
+  induction ptrs as [|p r IH]; intros es HS Hes; simpl; auto. inversion HS as [|? ? Sp Sr]; subst.
+  assert (IHr : Forall (fun x => eid' (snd x) = e_sub (fst x) /\ In (snd x) es) (ptr_pairs r))
+    by (apply IH; auto; intros q Hq; apply Hes; right; auto).
+  destruct (ptr_elem H c tid' p) as [e|] eqn:Q; auto. constructor; auto. cbn [fst snd].
+  specialize (Hes p (or_introl eq_refl)). unfold entl_ptr in Hes. unfold ptr_elem in Q. unfold sub_ent_ptr.
+  destruct Sp as [Sp|Sp]; [rewrite Sp in Q; discriminate|].
+  destruct (negb (is_prefix (flt c) (pname (fst p)))); [discriminate|]. inversion Q; subst e. cbn [e_sub].
+  destruct (pmulti (fst p)); cbn [negb andb] in *.
+  - rewrite Sp. cbn [eid]. split; auto. apply Hes. right; left; reflexivity.
+  - destruct (plink (fst p) && negb (follow c)); cbn [eid]; split; auto; apply Hes; left; reflexivity.
+Qed.
+
+Lemma mapM_rel : forall {A B} (f : A -> st -> res (B * st)) (entl : A -> list entity)
+  (R : A -> B -> st -> Prop) l,
+  (forall a b s s', R a b s -> pfx s s' -> R a b s') ->
+  Forall (fun a => forall es s0 s b s', Mid es s0 s -> f a s = Ok (b, s') ->
+                   Mid (es ++ entl a) s0 s' /\ pfx s s' /\ R a b s') l ->
+  forall es s0 s bs s', Mid es s0 s -> mapM f l s = Ok (bs, s') ->
+    Mid (es ++ flat_map entl l) s0 s' /\ pfx s s' /\ Forall2 (fun a b => R a b s') l bs.
+Proof.
+  intros A B f entl R l Mono HF. induction HF as [|a l Ha HF IH]; intros es s0 s bs s' M E; simpl in E.
+  - inversion E; subst. simpl. rewrite app_nil_r. splits; auto. apply pfx_refl.
+  - bind_inv E. destruct a0 as [b s1]. bind_inv E. destruct a0 as [bs' s2]. inversion E; subst.
+    destruct (Ha _ _ _ _ _ M E0) as (M1 & P1 & R1).
+    destruct (IH _ _ _ _ _ M1 E1) as (M2 & P2 & R2).
+    splits.
+    + simpl. rewrite app_assoc. exact M2.
+    + eapply pfx_trans; eauto.
+    + constructor; auto. eapply Mono; eauto.
+Qed.
+
+Definition selem_rel (free impl : bool) (e : elem) (se : selem) (sF : st) : Prop :=
+  se_flags se = elem_flags impl e /\ se_card se = e_card e /\ se_name se = e_name e /\
+  index_of (e_sub e) (pos sF) = Some (se_type se) /\
+  (if v2 c && negb free then index_of (oid (e_src e)) (pos sF) = Some (se_src se)
+   else se_src se = 0).
+
+Lemma selem_rel_mono : forall free impl e se s s', selem_rel free impl e se s -> pfx s s' ->
+  selem_rel free impl e se s'.
+Proof.
+  intros free impl e se s s' (F & Cd & Nm & T & S) P. unfold selem_rel. splits; auto.
+  - eapply pfx_index; eauto.
+  - destruct (v2 c && negb free); auto. eapply pfx_index; eauto.
+Qed.
+
+Definition entl_src (free : bool) (e : elem) : list entity :=
+  if v2 c && negb free then [EObj (e_src e)] else [].
+
+Lemma shape_elem_mid : forall free impl e, (v2 c && negb free = true -> U (EObj (e_src e))) ->
+  forall es s0 s se s', Mid es s0 s -> shape_elem c free impl e s = Ok (se, s') ->
+  Mid (es ++ entl_src free e) s0 s' /\ pfx s s' /\ selem_rel free impl e se s'.
+Proof.
+  intros free impl e Uo es s0 s se s' M E. unfold shape_elem in E. unfold entl_src.
+  bind_inv E. bind_inv E.
+  assert (FL : (if e_lp e then FLAG_IS_LINKPROP else 0) + a + (if e_link e then FLAG_IS_LINK else 0)
+               = elem_flags impl e).
+  { unfold elem_flags. f_equal. f_equal.
+    destruct ((impl && str_eqb (e_name e) s_id) || str_eqb (e_name e) s_tid).
+    - cbn [orb]. destruct (uuid_eqb (e_sub e) ID_UUID); inversion E0; reflexivity.
+    - cbn [orb]. destruct (str_eqb (e_name e) s_tname).
+      + destruct (uuid_eqb (e_sub e) ID_STR); inversion E0; reflexivity.
+      + inversion E0; reflexivity. }
+  unfold ref in E1. destruct (index_of (e_sub e) (pos s)) as [k|] eqn:Q; inversion E1; subst a0. clear E1.
+  destruct (v2 c && negb free) eqn:VF.
+  - bind_inv E. destruct a0 as [srcid s1]. bind_inv E. inversion E; subst se s'. clear E.
+    destruct (objtype_post _ _ _ _ (Uo eq_refl) (mid_inv _ _ _ M) E1) as [-> P].
+    splits.
+    + eapply mid_snoc; eauto.
+    + apply P.
+    + unfold selem_rel. cbn [se_flags se_card se_name se_type se_src]. rewrite VF. splits; auto.
+      * eapply pfx_index; [apply P|exact Q].
+      * unfold ref in E2. destruct (index_of (oid (e_src e)) (pos s1)); inversion E2; reflexivity.
+  - inversion E; subst se s'. rewrite app_nil_r. splits; auto; [apply pfx_refl|].
+    unfold selem_rel. cbn [se_flags se_card se_name se_type se_src]. rewrite VF. splits; auto.
+Qed.
+
+Lemma mid_compose : forall es es' s s2 s4, Mid es s s2 -> Mid es' s2 s4 -> Mid (es ++ es') s s4.
+Proof.
+  intros es es' s s2 s4 (I1 & P1 & R1 & B1 & A1) (I2 & P2 & R2 & B2 & A2). unfold Mid. splits; auto.
+  - eapply pfx_trans; eauto.
+  - intros x Hx. apply in_app_or in Hx. destruct Hx as [Hx|Hx]; auto. apply (pfx_incl _ _ P2). auto.
+  - intros x Hx. apply B2 in Hx. rewrite flat_map_app, map_app.
+    apply in_app_or in Hx. destruct Hx as [Hx|Hx].
+    + apply B1 in Hx. apply in_app_or in Hx. destruct Hx; apply in_or_app; auto. right. apply in_or_app; auto.
+    + apply in_or_app. right. apply in_or_app; auto.
+  - congruence.
+Qed.
+
+Lemma nth_desc_nonempty : forall (ds : list desc) k d, nth_desc ds k = Some d -> ds <> [].
+Proof. intros ds k d E Z. subst. unfold nth_desc in E. destruct (N.to_nat k); discriminate. Qed.
+
+Lemma nth_desc_0 : forall (ds : list desc), ds <> [] -> nth_desc ds 0 = Some (hd0 ds).
+Proof. intros [|d ds] Hn; [contradiction|reflexivity]. Qed.
+
+Lemma res_selems_ok : forall free impl sF ds (xs : list (elem * entity)) ses,
+  Inv sF -> ds_of sF = Some ds ->
+  Forall2 (fun e se => selem_rel free impl e se sF) (map fst xs) ses ->
+  Forall (fun x => eid' (snd x) = e_sub (fst x) /\ U (snd x)
+                   /\ (v2 c && negb free = true -> U (EObj (e_src (fst x))))) xs ->
+  forall z', (ds <> [] -> z' = hd0 ds) ->
+  res_selems c true ds ses
+  = Some (map (fun x => delem_of c z' free impl (fst x, eexp' z' (snd x))) xs).
+Proof.
+  intros free impl sF ds xs. induction xs as [|x xs IH]; intros ses I D F2 HX z' Hz.
+  - inversion F2; subst. reflexivity.
+  - simpl in F2. inversion F2 as [|e se l1 l2 Rel F2' E1 E2]; subst.
+    inversion HX as [|? ? (Ex & Ux & Uo) HX']; subst.
+    destruct Rel as (Fl & Cd & Nm & Ty & Sr).
+    cbn [res_selems map].
+    assert (LT : nth_desc ds (se_type se) = Some (eexp' z' (snd x))).
+    { eapply lookup_z; eauto. rewrite Ex. exact Ty. }
+    rewrite LT. rewrite andb_true_r.
+    assert (LS : (if v2 c then match nth_desc ds (se_src se) with Some y => Some (Some y) | None => None end
+                  else Some None)
+                 = Some (if v2 c then (if free then Some z' else Some (exp_obj (e_src (fst x)))) else None)).
+    { destruct (v2 c) eqn:V; auto. destruct free; cbn [negb andb] in Sr.
+      - rewrite Sr. pose proof (nth_desc_nonempty _ _ _ LT) as NE. rewrite (nth_desc_0 _ NE), (Hz NE). reflexivity.
+      - rewrite (lookup_z sF ds (EObj (e_src (fst x))) (se_src se) z' I D (Uo eq_refl) Sr Hz). reflexivity. }
+    rewrite LS. rewrite (IH l2 I D F2' HX' z' Hz). unfold delem_of. cbn [fst snd].
+    rewrite Fl, Cd, Nm. reflexivity.
+Qed.
+
+Lemma valid_card_of : forall r m, valid_card (card_of r m) = true.
+Proof. intros [|] [|]; reflexivity. Qed.
+
+Lemma Forall2_map_l : forall {A B C} (R : B -> C -> Prop) (g : A -> B) l k,
+  Forall2 R (map g l) k -> Forall2 (fun a b => R (g a) b) l k.
+Proof.
+  intros A B C R g l. induction l as [|a l IH]; intros k F; simpl in F; inversion F; subst; constructor; auto.
+Qed.
+
+Lemma shape_finish_post : forall t mt free impl (xs : list (elem * entity)) es s s2 i s',
+  U (ETy t) -> eid' (ETy t) = shape_id_of H mt impl (map fst xs) ->
+  (forall z', eexp' z' (ETy t)
+              = DShape (eid' (ETy t)) (shape_otype c mt free)
+                       (map (fun x => delem_of c z' free impl (fst x, eexp' z' (snd x))) xs)) ->
+  Forall (fun x => valid_utf8 (e_name (fst x)) = true /\ valid_card (e_card (fst x)) = true) xs ->
+  Forall (fun x => eid' (snd x) = e_sub (fst x) /\ U (snd x)
+                   /\ (v2 c && negb free = true -> U (EObj (e_src (fst x))))) xs ->
+  (v2 c && negb free = true -> U (EObj mt)) ->
+  (v2 c && negb free = true ->
+   incl (ents_obj mt ++ flat_map (fun x => ents_obj (e_src (fst x))) xs) (proper c (ETy t))) ->
+  incl (flat_map ents_e es) (proper c (ETy t)) ->
+  Mid es s s2 -> shape_finish H c mt free impl (map fst xs) s2 = Ok (i, s') ->
+  i = eid' (ETy t) /\ Post (ETy t) s s'.
+Proof.
+  intros t mt free impl xs es s s2 i s' Ue Eid Hexp Wx HX Umt SubO Sub M E.
+  unfold shape_finish in E. fold (shape_id_of H mt impl (map fst xs)) in E. rewrite <- Eid in E.
+  destruct (registered (eid' (ETy t)) s2) eqn:Rg.
+  { inversion E; subst. split; auto. eapply post_mid_registered; eauto. }
+  bind_inv E. destruct a as [otref s3]. bind_inv E. destruct a as [ses s4].
+  apply finish_ok in E. destruct E as [-> ->]. cbn [node_id]. split; auto.
+  pose proof (mid_inv _ _ _ M) as I2.
+  (* object type of the shape *)
+  assert (OT : Mid (if v2 c && negb free then [EObj mt] else []) s2 s3 /\
+               (if v2 c && negb free then index_of (oid mt) (pos s3) = Some otref else otref = 0)).
+  { destruct (v2 c && negb free) eqn:VF.
+    - bind_inv E0. destruct a as [oi s3']. bind_inv E0. inversion E0; subst otref s3'. clear E0.
+      destruct (objtype_post _ _ _ _ (Umt eq_refl) I2 E) as [-> P]. split.
+      + apply (mid_snoc [] _ _ _ _ (mid_nil _ I2) P).
+      + unfold ref in E2. destruct (index_of (oid mt) (pos s3)); inversion E2; reflexivity.
+    - inversion E0; subst. split; auto. apply mid_nil; auto. }
+  destruct OT as [M3 OT].
+  (* the elements *)
+  assert (HFe : Forall (fun e => forall es s0 s se s', Mid es s0 s -> shape_elem c free impl e s = Ok (se, s') ->
+                   Mid (es ++ entl_src free e) s0 s' /\ pfx s s' /\ selem_rel free impl e se s') (map fst xs)).
+  { apply Forall_map. eapply Forall_impl; [|exact HX]. intros x (_ & _ & Uo) es0 s0 sa se sb Ma Ea.
+    eapply shape_elem_mid; eauto. }
+  destruct (mapM_rel (shape_elem c free impl) (entl_src free) (selem_rel free impl) (map fst xs)
+                     (selem_rel_mono free impl) HFe _ _ _ _ _ M3 E1) as (M4 & P34 & F2).
+  set (ES2 := (if v2 c && negb free then [EObj mt] else []) ++ flat_map (entl_src free) (map fst xs)) in *.
+  pose proof (mid_compose _ _ _ _ _ M M4) as MF.
+  assert (Sub2 : incl (flat_map ents_e ES2) (proper c (ETy t))).
+  { unfold ES2, entl_src. destruct (v2 c && negb free) eqn:VF.
+    - eapply incl_tran; [|apply (SubO eq_refl)]. rewrite flat_map_app. cbn [flat_map ents_e]. rewrite app_nil_r.
+      apply incl_app; [apply incl_appl, incl_refl|apply incl_appr].
+      rewrite flat_map_map. clear. induction xs as [|x xs IH]; simpl; [apply incl_refl|].
+      apply incl_app; [apply incl_appl, incl_refl|apply incl_appr; exact IH].
+    - simpl. clear. induction (map fst xs); simpl; auto. intros y []. }
+  assert (SubF : incl (flat_map ents_e (es ++ ES2)) (proper c (ETy t))).
+  { rewrite flat_map_app. apply incl_app; auto. }
+  destruct (inv_ds_ex _ (mid_inv _ _ _ MF)) as [ds D].
+  pose proof (mid_inv _ _ _ MF) as I4.
+  assert (RS : forall z', (ds <> [] -> z' = hd0 ds) ->
+              res_selems c true ds ses
+              = Some (map (fun x => delem_of c z' free impl (fst x, eexp' z' (snd x))) xs)).
+  { intros z' Hz. eapply res_selems_ok; eauto. }
+  assert (RO : forall z', (ds <> [] -> z' = hd0 ds) ->
+              (if v2 c && negb free then match nth_desc ds otref with Some x => Some (Some x) | None => None end
+               else Some None) = Some (shape_otype c mt free)).
+  { intros z' Hz. unfold shape_otype. destruct (v2 c && negb free) eqn:VF; auto.
+    rewrite (lookup_z s4 ds (EObj mt) otref z' I4 D (Umt eq_refl)); auto.
+    eapply pfx_index; [exact P34|exact OT]. }
+  eapply post_finish with (s1 := s4) (ds := ds).
+  - exact I4.
+  - exact D.
+  - apply MF.
+  - eapply mid_bound; eauto.
+  - apply MF.
+  - exact Ue.
+  - reflexivity.
+  - cbn [node_id]. eapply (mid_not_registered (ETy t) ES2 s2 s4); eauto.
+  - split; [exact (proj1 (Uwf _ Ue))|]. cbn [node_id].
+    clear -F2 Wx. revert ses F2. induction xs as [|x xs IH]; intros ses F2; simpl in F2;
+      inversion F2 as [|? ? ? ? Rel F2']; subst; constructor.
+    + inversion Wx as [|? ? (Wn & Wc) Wr]; subst. destruct Rel as (_ & Cd & Nm & _). unfold wf_selem. rewrite Cd, Nm. auto.
+    + inversion Wx; subst. apply IH; auto.
+  - cbn [resolve]. rewrite (RO (hd0 ds)) by auto. rewrite (RS (hd0 ds)) by auto. reflexivity.
+  - intros z' Hz. rewrite Hexp.
+    pose proof (RS z' Hz) as R1. pose proof (RS (hd0 ds) ltac:(auto)) as R2. rewrite R1 in R2.
+    inversion R2 as [R3]. try rewrite <- R3. reflexivity.
+Qed.
+
+(* membership in the entities below a shape *)
+Section ShapeMembers.
+Variables (mt : objtype) (free impl : bool) (ptrs lps : list (pinfo * ty)).
+Let t := TShape mt free impl ptrs lps.
+
+Lemma shp_proper : proper c (ETy t) =
+  ents_obj mt ++ ents_scalar (uuid_sc c)
+    ++ flat_map (fun p => ESet (snd p) :: ents_obj (psource (fst p)) ++ ents c (snd p)) ptrs
+    ++ flat_map (fun p => ESet (snd p) :: ents c (snd p)) lps.
+Proof. reflexivity. Qed.
+
+Lemma shp_mt : incl (ents_obj mt) (proper c (ETy t)).
+Proof. rewrite shp_proper. apply incl_appl, incl_refl. Qed.
+
+Lemma shp_uuid : incl (ents_scalar (uuid_sc c)) (proper c (ETy t)).
+Proof. rewrite shp_proper. apply incl_appr, incl_appl, incl_refl. Qed.
+
+Lemma shp_ptr : forall p, In p ptrs ->
+  incl (ESet (snd p) :: ents_obj (psource (fst p)) ++ ents c (snd p)) (proper c (ETy t)).
+Proof.
+  intros p Hp x Hx. rewrite shp_proper. apply in_or_app. right. apply in_or_app. right.
+  apply in_or_app. left. apply in_flat_map. exists p. auto.
+Qed.
+
+Lemma shp_lp : forall p, In p lps -> incl (ESet (snd p) :: ents c (snd p)) (proper c (ETy t)).
+Proof.
+  intros p Hp x Hx. rewrite shp_proper. apply in_or_app. right. apply in_or_app. right.
+  apply in_or_app. right. apply in_flat_map. exists p. auto.
+Qed.
+
+Lemma shp_entl_ptr : forall p, In p ptrs -> incl (flat_map ents_e (entl_ptr p)) (proper c (ETy t)).
+Proof.
+  intros p Hp. unfold entl_ptr.
+  destruct (negb (is_prefix (flt c) (pname (fst p)))); [intros x []|].
+  destruct (negb (pmulti (fst p))).
+  - destruct (plink (fst p) && negb (follow c)); cbn [flat_map ents_e]; rewrite app_nil_r.
+    + apply shp_uuid.
+    + intros x Hx. apply (shp_ptr p Hp). right. apply in_or_app. right. exact Hx.
+  - cbn [flat_map ents_e]. rewrite app_nil_r. intros x Hx. apply (shp_ptr p Hp).
+    apply in_app_or in Hx. destruct Hx as [Hx|[<-|Hx]].
+    + right. apply in_or_app. right. exact Hx.
+    + left. reflexivity.
+    + right. apply in_or_app. right. exact Hx.
+Qed.
+
+Lemma shp_entl_lp : forall p, In p lps -> incl (flat_map ents_e (entl_lp p)) (proper c (ETy t)).
+Proof.
+  intros p Hp. unfold entl_lp. destruct (pmulti (fst p)); cbn [flat_map ents_e]; rewrite app_nil_r;
+    intros x Hx; apply (shp_lp p Hp).
+  - apply in_app_or in Hx. destruct Hx as [Hx|[<-|Hx]]; [right; exact Hx|left; reflexivity|right; exact Hx].
+  - right. exact Hx.
+Qed.
+
+Lemma flat_map_incl : forall {A B} (f : A -> list B) (l : list A) (tgt : list B),
+  (forall a, In a l -> incl (f a) tgt) -> incl (flat_map f l) tgt.
+Proof.
+  intros A B f l tgt Hf x Hx. apply in_flat_map in Hx. destruct Hx as (a & Ha & Hx). eapply Hf; eauto.
+Qed.
+
+End ShapeMembers.
+
+Lemma ptr_pairs_forall : forall (Q : elem * entity -> Prop) ptrs,
+  (forall p e, In p ptrs -> ptr_elem H c tid' p = Some e -> Q (e, sub_ent_ptr p)) ->
+  Forall Q (ptr_pairs ptrs).
+Proof.
+  intros Q ptrs. induction ptrs as [|p r IH]; intros HQ; simpl; auto.
+  assert (IHr : Forall Q (ptr_pairs r)) by (apply IH; intros q e Hq; apply HQ; right; auto).
+  destruct (ptr_elem H c tid' p) eqn:E; auto. constructor; auto. apply HQ; auto. left; reflexivity.
+Qed.
+
+(* the element descriptions used by [expect] are the expected descriptions of the paired entities *)
+Lemma ptr_pairs_exp : forall z ptrs, Forall ptr_sane ptrs ->
+  map (fun x => (fst x, eexp' z (snd x))) (ptr_pairs ptrs)
+  = somes (map (ptr_ed H c tid' (expect H c z)) ptrs).
+Proof.
+  intros z ptrs HS. induction HS as [|p r Sp Sr IH]; simpl; auto.
+  unfold ptr_ed at 1. destruct (ptr_elem H c tid' p) as [e|] eqn:Q; simpl; auto.
+  f_equal; auto. f_equal. unfold sub_ent_ptr. unfold ptr_elem in Q.
+  destruct Sp as [Sp|Sp]; [rewrite Sp in Q; discriminate|].
+  destruct (negb (is_prefix (flt c) (pname (fst p)))); [discriminate|]. inversion Q; subst e. cbn [e_sub].
+  destruct (pmulti (fst p)); cbn [andb] in *.
+  - rewrite Sp. reflexivity.
+  - destruct (plink (fst p) && negb (follow c)); reflexivity.
+Qed.
+
+Lemma lp_pairs_exp : forall z mt lps,
+  map (fun x => (fst x, eexp' z (snd x))) (lp_pairs mt lps)
+  = map (lprop_ed H tid' (expect H c z) mt) lps.
+Proof.
+  intros z mt lps. unfold lp_pairs. rewrite map_map. apply map_ext. intros p. cbn [fst snd].
+  unfold lprop_ed, sub_ent_lp. f_equal. unfold lprop_elem. cbn [e_sub].
+  destruct (pmulti (fst p)); reflexivity.
 Qed.
 
 End Graph.
